@@ -90,6 +90,12 @@ Definition tfun (tag : Z) : Z -> rv -> rv :=
   | 4 => lift1 (fun r => rdd_map (efun 2) (rdd_filter (pfun 3) r))
   | 5 => fun t a => match a with RRdd r => RRdd (rdd_map (on_int (fun x => VInt (x + t))) r) | RNone => RNone end
   | 6 => fun _ _ => RNone          (* lambda rdd: None -- children take the early return of _step *)
+  (* the same functions with other signatures; transform() decides by func.__code__.co_argcount == 1 *)
+  | 7 => lift1 (rdd_map (efun 1))        (* def f(rdd, *, n=2): one positional parameter -> f(rdd) *)
+  | 8 => lift1 (rdd_filter (pfun 2))     (* def g(rdd, *more) -> g(rdd) *)
+  | 9 => fun _ a => a                    (* def k(rdd, **kw) -> k(rdd) *)
+  | 10 => fun _ a => a                   (* def h(rdd, n=2): co_argcount 2 -> h(time, rdd), returns its second argument *)
+  | 11 => fun t a => match a with RRdd r => RRdd (rdd_map (on_int (fun x => VInt (x + t))) r) | RNone => RNone end   (* bound method m(self, t, rdd) *)
   | _ => fun _ _ => RNone
   end.
 
@@ -183,6 +189,7 @@ Definition dec_call (v : val) : option call :=
   | VTup [VInt 16; VInt s; VInt b; VInt e] => Some (CSlice b e (nat_of s))
   | VTup [VInt 17; VInt s] => Some (CForeachRDD (nat_of s))
   | VTup [VInt 17; VInt s; VInt _] => Some (CForeachRDD (nat_of s))   (* an action that calls ssc.stop() in the last interval *)
+  | VTup [VInt 17; VInt s; VInt _; VInt _] => Some (CForeachRDD (nat_of s))   (* + signature kind of the action *)
   | VTup [VInt 18; VInt s; VInt f] => Some (CMapPartitions (nat_of s) (ppfun f))
   | VTup [VInt 19; VInt s; VInt f] => Some (CMapPartitionsWithIndex (nat_of s) (pifun f))
   | VTup [VInt 20; VInt s; VInt o; VInt f] => Some (CTransformWith (nat_of s) (nat_of o) (twfun f))
